@@ -96,6 +96,57 @@ const STANDARD_CODES: &[i16] = &[
     -311, -312, -313, -314, -315, -320, -321, -330, -340, -350, -360, -361, -362, -363, -365, -400, -410, -420, -430, -440, -500, -600, -700, -800,
 ];
 
+/// A faulty element as first, second and third parameter of a handler that converts every
+/// parameter to u8: the class of the error must be the one the fault has, wherever it stands.
+fn positional_faults() -> (u64, Vec<(u64, String)>) {
+    use crate::rig::{run_vec, Plan, RigDev, SharedTree, TreeSpec};
+    let spec = TreeSpec::root(vec![TreeSpec::leaf("A", 0)]);
+    let shared = SharedTree::of(&spec);
+    let faults: &[(&str, Class)] = &[
+        ("256", Class::Execution),
+        ("-1", Class::Execution),
+        ("1e3", Class::Execution),
+        ("#H100", Class::Execution),
+        ("255.6", Class::Execution),
+        ("#H1FFFFFFFFFFFFFFFFF", Class::Execution),
+        ("#Q7777777777777777777777", Class::Execution),
+        ("\"1\"", Class::Command),
+        ("#15hello", Class::Command),
+        ("(1)", Class::Command),
+        ("ABC", Class::Command),
+        ("1V", Class::Command),
+        ("#Hxyz", Class::Command),
+        ("1.2.3", Class::Command),
+    ];
+    let mut n = 0u64;
+    let mut bad = vec![];
+    for (text, class) in faults {
+        for pos in 0..3usize {
+            n += 1;
+            let mut m = b"A ".to_vec();
+            for i in 0..=pos {
+                if i > 0 {
+                    m.push(b',');
+                }
+                if i == pos {
+                    m.extend_from_slice(text.as_bytes());
+                } else {
+                    m.extend_from_slice(b"7");
+                }
+            }
+            let mut dev = RigDev::new();
+            dev.plan[0] = Plan { req: (pos + 1) as u8, typed_u8: true, ..Plan::NOP };
+            let mut out = Vec::new();
+            match guarded(|| run_vec(shared.node(), &mut dev, &m, &mut out)) {
+                Ok(Err(e)) if class_of(e.get_code()) == Some(*class) => {}
+                Ok(r) => bad.push((n, format!("`{}` (fault in parameter {}) gives {:?}; expected a {:?} error", esc(&m), pos + 1, r.err().map(|e| e.get_code()), class))),
+                Err(p) => bad.push((n, format!("`{}` panicked: {p}", esc(&m)))),
+            }
+        }
+    }
+    (n, bad)
+}
+
 /// (cases evaluated, violations as (index, text))
 fn quantity_type_faults() -> (u64, Vec<(u64, String)>) {
     use scpi::parser::suffix::{Amplitude, Db};
@@ -262,25 +313,40 @@ pub fn run(ctx: &'static Ctx) -> i32 {
     for (j, w) in bad_qt {
         ctx.violation(85000 + j, "conversion-fault-class", &w, json!({"kind": "quantity-type", "index": j}));
     }
+    // the class of a parameter fault does not depend on the position of the parameter
+    let (n_pos, bad_pos) = positional_faults();
+    fault_cases += n_pos;
+    for (j, w) in bad_pos {
+        ctx.violation(86000 + j, "fault-class-by-position", &w, json!({"kind": "positional", "index": j}));
+    }
     // response buffer exhausted: a value fault (execution-error class)
     {
         use crate::rig::{RigDev, SharedTree};
         let spec = crate::props::c10::framing_tree();
         let shared = SharedTree::of(&spec);
-        for (j, (m, cap)) in [(&b"QON?"[..], 0usize), (b"QON?", 1), (b"QON?", 2), (b"QTHR?", 7), (b":QVOL?", 3), (b"QON?;QON?", 3), (b"QON?;QON?", 5)].iter().enumerate() {
-            fault_cases += 1;
+        let mut j = 0u64;
+        for m in [&b"QON?"[..], b"QON?;QON?", b"QTHR?", b":QVOL?", b"QHDR?;QON?", b":QCAL?;qhh?", b"QON?;EV;:QERR?"] {
+            // the full response length from a growable buffer
             let mut dev = RigDev::new();
             crate::props::c10::framing_plans(&mut dev);
-            match crate::props::c11::run_with_cap(*cap, shared.node(), &mut dev, m) {
-                Ok(cr) => match cr.result {
-                    Err(code) if class_of(code) == Some(Class::Execution) => {}
-                    Ok(()) => {} // whether the message must fail at all is C11's question, not this one
-                    other => {
-                        ctx.violation(87000 + j as u64, "buffer-fault-class", &format!("`{}` with a {cap}-byte response buffer gives {:?}; response buffer exhaustion is an execution error", esc(m), other), json!({"kind": "buffer", "msg": esc(m), "cap": cap}));
+            let mut full = Vec::new();
+            let _ = crate::rig::run_vec(shared.node(), &mut dev, m, &mut full);
+            for cap in 0..full.len() {
+                j += 1;
+                fault_cases += 1;
+                let mut dev = RigDev::new();
+                crate::props::c10::framing_plans(&mut dev);
+                match crate::props::c11::run_with_cap(cap, shared.node(), &mut dev, m) {
+                    Ok(cr) => match cr.result {
+                        Err(code) if class_of(code) == Some(Class::Execution) => {}
+                        Ok(()) => {} // whether the message must fail at all is C11's question, not this one
+                        other => {
+                            ctx.violation(87000 + j, "buffer-fault-class", &format!("`{}` with a {cap}-byte response buffer gives {:?}; response buffer exhaustion is an execution error", esc(m), other), json!({"kind": "buffer", "msg": esc(m), "cap": cap}));
+                        }
+                    },
+                    Err(p) => {
+                        ctx.violation(87000 + j, "panic", &format!("`{}` with a {cap}-byte buffer panicked: {p}", esc(m)), json!({"kind": "buffer", "msg": esc(m), "cap": cap}));
                     }
-                },
-                Err(p) => {
-                    ctx.violation(87000 + j as u64, "panic", &format!("`{}` with a {cap}-byte buffer panicked: {p}", esc(m)), json!({"kind": "buffer", "msg": esc(m), "cap": cap}));
                 }
             }
         }
@@ -366,6 +432,13 @@ pub fn replay(case: &Value) -> Result<String, String> {
             match cr.result {
                 Err(code) if class_of(code) == Some(Class::Execution) => Ok(format!("{code}")),
                 other => Err(format!("buffer-fault-class: {:?}", other)),
+            }
+        }
+        Some("positional") => {
+            let (_, bad) = positional_faults();
+            match bad.first() {
+                Some((_, w)) => Err(format!("fault-class-by-position: {w}")),
+                None => Ok("fault classes do not depend on the parameter position".into()),
             }
         }
         Some("quantity-type") => {
